@@ -78,6 +78,10 @@ def _neutral_ci(i):
     o = copy.deepcopy(i)
     o["env"]["ci"] = False
     o["env"]["unfiltered"] = False
+    if o["env"].get("boolVal"):
+        # the text the boolean switches are set to overrides the flags: switch it off as well
+        o["env"]["boolVal"] = "0"
+        o["env"]["nocolor"] = False
     return o
 
 
@@ -183,8 +187,8 @@ CLASSES = [
           lambda i: _map_value_fields(i, _repl("'"), ("value",)),
           "xonsh: `'` becomes `\\'` and is then wrapped in r'...': reads back with the backslash"),
     Class("xonsh_trailing_backslash", ("C02", "C03", "C05", "C06"), ("value",),
-          both(sh("xonsh"), lambda i: any(v["value"].rstrip("\n\t").endswith("\\") for v in i.get("values") or [])),
-          lambda i: _map_value_fields(i, lambda s: s + "x" if s.rstrip("\n\t").endswith("\\") else s, ("value",)),
+          both(sh("xonsh"), lambda i: any(v["value"].rstrip("\n\t\r").endswith("\\") for v in i.get("values") or [])),
+          lambda i: _map_value_fields(i, lambda s: s.rstrip("\n\t\r") + "x" if s.rstrip("\n\t\r").endswith("\\") else s, ("value",)),
           "xonsh: a value ending in a backslash gives r'...\\' which is not a complete literal"),
     Class("xonsh_cr", ("C02", "C03", "C04", "C05", "C06"), ("value",), both(sh("xonsh"), lambda i: _has(i, "\r", ("value", "display"))),
           lambda i: _map_value_fields(i, _strip("\r"), ("value", "display")),
